@@ -33,6 +33,8 @@ type Harness struct {
 	mu     sync.Mutex
 	shapes map[string]int
 	curMV  *modelVerdict // the model's prediction for the crash point being judged (model-compared workloads, client mode)
+	curLib string        // miss3.go libExpect of the directory being judged (library mode): "" = not computed
+	lockAns map[string]string
 }
 
 func (h *Harness) explanation() string {
@@ -77,6 +79,7 @@ func (h *Harness) run() {
 		ws = append(ws, genWorkload(g, i))
 	}
 	ws = append(ws, wideWorkloads(r, r.Rng.Fork())...)
+	ws = append(ws, missWorkloads(r, r.Rng.Fork())...)
 	exhaustive := true
 	for _, w := range ws {
 		if o := os.Getenv("C07_ONLY"); o != "" && o != w.Name {
@@ -108,7 +111,19 @@ func (h *Harness) doWorkload(w Workload, only int, onlyMode string, onlySecond s
 	} else {
 		fmt.Fprintln(diag, "C07_KEEP:", h.root+"/"+w.Name, wr.Results)
 	}
+	if os.Getenv("C07_DEBUG") != "" {
+		for _, ht := range wr.Hits {
+			fmt.Fprintf(diag, "C07_DEBUG hit %d op %d %s#%d\n", ht.N, ht.OpIdx, ht.Name, ht.Idx)
+		}
+		fmt.Fprintln(diag, "C07_DEBUG results", wr.Results, wr.Err)
+	}
 	rep := func(hit int, mode string) Case { return Case{Workload: w.Name, Hit: hit, Mode: mode} }
+	if wr.Err != "" && wr.RestartPanic != "" {
+		r.Eval("clean-restart/"+w.Shape, w.Name+"|in-history")
+		r.PropFail("clean-restart-fails:"+w.Shape, fmt.Sprintf("workload %s: %s (the chain had been closed cleanly: Chain.Close returned and the lock file was removed)", w.Name, wr.Err),
+			map[string]interface{}{"case": rep(0, "closed:none"), "ops": w.Ops, "results": wr.Results})
+		return false
+	}
 	if wr.Err != "" {
 		r.TieFail("workload-run:"+w.Name, "the workload could not be run as scripted on the real code: "+wr.Err, map[string]interface{}{"case": rep(0, ""), "results": wr.Results})
 		return false
@@ -144,8 +159,21 @@ func (h *Harness) doWorkload(w Workload, only int, onlyMode string, onlySecond s
 
 	// ---- every crash point -> fresh process
 	modes := []string{"client"}
-	if r.Thorough() || only != 0 {
+	if r.Thorough() || only != 0 || w.Lib {
 		modes = append(modes, "library")
+	}
+	h.snapFileTie(w, wr)
+	// what the unchanged tail of NewChainExt does with each captured directory, computed from the files BEFORE any child touches them
+	libx := map[int]string{}
+	lockHad := map[int]bool{}
+	for _, ht := range wr.Hits {
+		if replaySelects(ht, only) && !ht.NoCopy {
+			v := h.viewOf(fmt.Sprintf("%s/%04d/", wr.Snaps, ht.N))
+			lockHad[ht.N] = v.lockHas
+			if len(modes) > 1 {
+				libx[ht.N] = h.libExpect(v)
+			}
+		}
 	}
 	type job struct {
 		hit  Hit
@@ -206,7 +234,19 @@ func (h *Harness) doWorkload(w Workload, only int, onlyMode string, onlySecond s
 		if j.mode == "client" && modelOK {
 			h.curMV = h.askModel(mdl, j.hit, j.res)
 		}
+		h.curLib = ""
+		if j.mode == "library" {
+			h.curLib = libx[j.hit.N]
+			r.Hit("library-tail-expected:" + h.curLib)
+		}
 		ok := h.judge(w, wr, j.hit, j.mode, j.res)
+		h.curLib = ""
+		if j.mode == "library" && modelOK {
+			h.libTie(w, wr, mdl, j.hit, j.res)
+		}
+		if j.mode == "client" {
+			h.lockTie(w, j.hit, lockHad[j.hit.N], j.res)
+		}
 		// the model must predict the recovered state ALSO where the property fails (F8: same wrong coin set), and a child
 		// that reported no state (panic / died) must be a panic of the model too
 		if mv := h.curMV; mv != nil {
@@ -224,6 +264,9 @@ func (h *Harness) doWorkload(w Workload, only int, onlyMode string, onlySecond s
 	h.stage2Run(w, wr, blocksFile, s2, onlySecond)
 	if w.Wide != "" && (only == 0 || onlyMode == "clean") {
 		h.cleanRestart(w, wr, blocksFile)
+	}
+	if only == 0 && (onlyMode == "" || strings.HasPrefix(onlyMode, "closed")) {
+		h.closedRestarts(w, wr, blocksFile)
 	}
 	if only == 0 && w.Wide == "" && (r.Thorough() || r.Replay != "" || w.Name == "extend" || w.Name == "reorg-after-save" || w.Name == "gen0") {
 		var tm *Model
@@ -278,7 +321,10 @@ func (h *Harness) judge2(w Workload, wr *WlRun, ht Hit, mode string, c *ChildRes
 		return best != "" && bh > c.S1.Height && !h.ref.isAncestorOrEqual(x, best)
 	}
 	fail := func(key, what string) bool {
-		if mode == "library" && (strings.Contains(c.Open, "unknown path to block") || strings.Contains(c.Open, "end block is not higher then current")) {
+		// ... and only where the unchanged tail of NewChainExt has a strictly higher block to go to that is not a descendant of the
+		// snapshot's block (computed from the files of the captured directory, miss3.go libExpect): with nothing higher on disk the
+		// tail is a no-op, with every highest block a descendant it walks forward - a panic there is NOT the known finding
+		if mode == "library" && h.curLib != "noop" && h.curLib != "parse" && (strings.Contains(c.Open, "unknown path to block") || strings.Contains(c.Open, "end block is not higher then current")) {
 			// FindPathTo's own message: the snapshot's block is not an ancestor of the farthest block on disk; when the farthest
 			// block is an equal-height leaf of another branch (Go map order decides) ParseTillBlock refuses before FindPathTo does
 			r.PropFail(keyLib, "library-mode NewChainExt (DoNotRescan=false) calls ParseTillBlock(farthest) and panics in FindPathTo when the snapshot's block is not an ancestor of the farthest block on disk: "+where+": "+what, rep)
@@ -292,7 +338,7 @@ func (h *Harness) judge2(w Workload, wr *WlRun, ht Hit, mode string, c *ChildRes
 		// descendant of it) while an undo file under the re-opened chain already names another block
 		offFinal := c.S1 != nil && wr.Final != nil && !h.ref.isAncestorOrEqual(c.S1.Tip, wr.Final.Tip) && len(c.UndoForeign) > 0
 		if (offBranch() && (mode == "library" || len(c.UndoForeign) > 0)) || offFinal {
-			if mode == "library" && strings.Contains(c.Open, "unknown path to block") {
+			if mode == "library" && h.curLib != "noop" && h.curLib != "parse" && strings.Contains(c.Open, "unknown path to block") {
 				r.PropFail(keyLib, "library-mode NewChainExt (DoNotRescan=false) panics in FindPathTo when the snapshot's block is not an ancestor of the farthest block on disk: "+where+": "+what, rep)
 				r.Hit("known:" + keyLib)
 				return false
@@ -308,7 +354,7 @@ func (h *Harness) judge2(w Workload, wr *WlRun, ht Hit, mode string, c *ChildRes
 			if mv := h.curMV; mv != nil && mode == "client" && !mv.unsupported && !(mv.ambiguous && !mv.agrees) {
 				evidence = mv.agrees && mv.foreign
 				why = fmt.Sprintf("the model's prediction for this crash point is %q (agrees with the real states: %v, foreign undo file read: %v)", mv.rep, mv.agrees, mv.foreign)
-			} else if mode == "library" {
+			} else if mode == "library" && h.curLib != "noop" && h.curLib != "parse" {
 				evidence = true // library mode is keyed above by its own panic message; the remaining library failures follow the shape test as before
 			} else {
 				evidence = h.foreignUndoReadTo(c, wr)
@@ -343,6 +389,9 @@ func (h *Harness) judge2(w Workload, wr *WlRun, ht Hit, mode string, c *ChildRes
 	}
 	if e := chk(c.S1, "after NewChainExt"); e != "" {
 		return fail("reopen-inconsistent", e)
+	}
+	if c.Cycle != "" {
+		return fail("clean-restart-fails", "the re-opened node is shut down cleanly and started again (nothing fed in between): "+c.Cycle)
 	}
 	if strings.HasPrefix(c.Recovery, "panic") || strings.HasPrefix(c.Recovery, "died") {
 		return fail("recovery-panics", "the client's recovery loop fails: "+c.Recovery)
@@ -1125,6 +1174,7 @@ func (h *Harness) replay() {
 		ws = append(ws, genWorkload(g, i))
 	}
 	ws = append(ws, wideWorkloads(&rr, r.Rng.Fork())...)
+	ws = append(ws, missWorkloads(&rr, r.Rng.Fork())...)
 	for _, w := range ws {
 		if w.Name == c.Workload {
 			onlyPoint, onlyPIdx = c.Point, c.PIdx
